@@ -363,7 +363,6 @@ func DecodeMatchField(class uint16, field uint8, length uint8, hasMask bool, dat
 			val = new(Uint32Message)
 		case NXM_NX_REG15:
 			val = new(Uint32Message)
-		case NXM_NX_TUN_ID:
 		case NXM_NX_ARP_SHA:
 			val = new(ArpXHaField)
 		case NXM_NX_ARP_THA:
@@ -382,25 +381,21 @@ func DecodeMatchField(class uint16, field uint8, length uint8, hasMask bool, dat
 			val = new(EthDstField)
 		case NXM_NX_ND_TLL:
 			val = new(EthSrcField)
-		case NXM_NX_IP_FRAG:
 		case NXM_NX_IPV6_LABEL:
 			val = new(IPv6FlowLabelField)
-		case NXM_NX_IP_ECN:
-		case NXM_NX_IP_TTL:
-		case NXM_NX_MPLS_TTL:
 		case NXM_NX_TUN_IPV4_SRC:
 			val = new(TunnelIpv4SrcField)
 		case NXM_NX_TUN_IPV4_DST:
 			val = new(TunnelIpv4DstField)
 		case NXM_NX_PKT_MARK:
 			val = new(Uint32Message)
-		case NXM_NX_TCP_FLAGS:
-		case NXM_NX_DP_HASH:
-		case NXM_NX_RECIRC_ID:
 		case NXM_NX_CONJ_ID:
 			val = new(Uint32Message)
-		case NXM_NX_TUN_GBP_ID:
-		case NXM_NX_TUN_GBP_FLAGS:
+		case NXM_NX_TUN_ID, NXM_NX_IP_FRAG, NXM_NX_IP_ECN, NXM_NX_IP_TTL, NXM_NX_MPLS_TTL, NXM_NX_TCP_FLAGS,
+			NXM_NX_DP_HASH, NXM_NX_RECIRC_ID, NXM_NX_TUN_GBP_ID, NXM_NX_TUN_GBP_FLAGS, NXM_NX_TUN_FLAGS:
+			// no dedicated payload type: the raw value (and mask) bytes, which is also how NewMatchField
+			// builds these fields
+			fallthrough
 		case NXM_NX_TUN_METADATA0:
 			fallthrough
 		case NXM_NX_TUN_METADATA1:
@@ -423,7 +418,6 @@ func DecodeMatchField(class uint16, field uint8, length uint8, hasMask bool, dat
 				msg.Length = length / 2
 			}
 			val = msg
-		case NXM_NX_TUN_FLAGS:
 		case NXM_NX_CT_STATE:
 			val = new(Uint32Message)
 		case NXM_NX_CT_ZONE:
